@@ -875,6 +875,7 @@ func TestCheck(t *testing.T) {
 	for _, sp := range searches {
 		sp := sp
 		var mu sync.Mutex
+		t0 := time.Now()
 		workers := 0
 		if sp.badger {
 			workers = 8 // an open badger instance holds tens of megabytes
@@ -934,7 +935,8 @@ func TestCheck(t *testing.T) {
 		}
 		perSearch[sp.name] = map[string]any{"depth": st.DepthDone, "alphabet": len(sp.acts), "save_actions": nSave, "crash_in_save_actions": nCrash,
 			"heights_read": []uint64{sp.minH, sp.maxH}, "backend": map[bool]string{false: "logging KV double", true: "real badger4 datastore on disk (store.NewDefaultKVStore), reopen = Close + open"}[sp.badger],
-			"merged_by_state": !sp.badger, "states": st.States, "transitions": st.Transitions, "states_per_level": st.PerLevel, "fixpoint": fix, "alphabet_config": sp.cfg}
+			"merged_by_state": !sp.badger, "states": st.States, "transitions": st.Transitions, "states_per_level": st.PerLevel, "fixpoint": fix, "alphabet_config": sp.cfg,
+			"wall_seconds": float64(int(time.Since(t0).Seconds()*10)) / 10}
 	}
 	sort.Strings(relSamples)
 	r.Finish(vf.Coverage{
